@@ -1,6 +1,9 @@
 import Lean.Data.Json
 import TypifyModel.Model.Integer
 import TypifyModel.Generated.Tables
+import TypifyModel.Model.ConvertString
+import TypifyModel.Generated.StringFormats
+import TypifyModel.Driver.Regex
 /-! Driver glue for slice `c10`: JSON schema line → `IntSchema` → `convertInteger`. -/
 namespace TypifyModel.Driver.C10
 open Lean TypifyModel TypifyModel.Integer
@@ -30,10 +33,42 @@ def parseSchema (j : Json) : Except String IntSchema := do
     | .ok _ => pure (some DefaultV.other)
   return { format, minimum, maximum, exclusiveMinimum, exclusiveMaximum, multipleOf, default }
 
+def getNatKey (j : Json) (k : String) : Except String (Option Nat) :=
+  match j.getObjVal? k with
+  | .error _ => .ok none
+  | .ok v => match v.getNat? with
+    | .ok n => .ok (some n)
+    | .error _ => .error "non-natural keyword"
+
+def optStr : Option String → String
+  | none => "-"
+  | some s => (Json.str s).compress
+def optNat : Option Nat → String
+  | none => "-"
+  | some n => toString n
+
+/-- `{type: string, format?, minLength?, maxLength?, pattern?}` → `ConvertString.convertString` over the regenerated T2 -/
+def handleString (j : Json) : String :=
+  match getNatKey j "minLength", getNatKey j "maxLength" with
+  | .ok mn, .ok mx =>
+    let s : ConvertString.StrSchema :=
+      { fmt := (j.getObjValAs? String "format").toOption, minLen := mn, maxLen := mx,
+        pattern := (j.getObjValAs? String "pattern").toOption }
+    let r := ConvertString.convertString Generated.stringFormats Generated.stringFormatFallback
+      (fun p => (Driver.Regex.parse p).isSome) s
+    let uses := " uses=" ++ ",".intercalate r.uses
+    (match r.out with
+     | .plain => "plain" ++ uses
+     | .constrained mx mn pat => "constrained max=" ++ optNat mx ++ " min=" ++ optNat mn ++ " pat=" ++ optStr pat ++ uses
+     | .native path impls => "native " ++ path ++ " impls=" ++ ",".intercalate impls ++ uses
+     | .invalidPattern => "err InvalidSchema")
+  | _, _ => "unsupported"
+
 def handle (line : String) : String :=
   match Json.parse line with
   | .error _ => "unsupported"
   | .ok j =>
+    if (j.getObjValAs? String "type").toOption == some "string" then handleString j else
     match parseSchema j with
     | .error _ => "unsupported"
     | .ok s =>
